@@ -48,7 +48,8 @@ class Check(PropertyCheck):
     run_expr = "run_c13_case"
     case_type = "(N * Z * list N)"
     shard = 300
-    rule = ("every protocol version 4..14 x incomingMessageHandler with all 7 defined message types and undefined ones, random APS "
+    rule = ("sessions on ONE running application per version (joins of devices with manufacturer-specific address prefixes included); "
+            "every protocol version 4..14 x incomingMessageHandler with all 7 defined message types and undefined ones, random APS "
             "fields, endpoints, sender, LQI 0..255, RSSI -128..127, payload lengths 0..maximum (and a long one), and trustCenterJoinHandler "
             "with every device-update status x every join decision; frames built by an independent byte-level encoder; non-trivial = a "
             "message type that must yield a packet, or a join/leave; distinct by frame bytes")
@@ -61,6 +62,14 @@ class Check(PropertyCheck):
         self.apps = {}
 
     def teardown(self):
+        for app, _ in self.apps.values():
+            tsk = getattr(app, "_mfg_id_task", None)
+            if tsk is not None and not tsk.done():
+                tsk.cancel()
+        try:
+            self.loop.run_until_complete(asyncio.sleep(0))
+        except Exception:
+            pass
         self.loop.close()
 
     def _app(self, v):
@@ -78,7 +87,8 @@ class Check(PropertyCheck):
             async def noop(*a, **k):
                 return None
             app.cleanup_tc_link_key = noop
-            app._reset_mfg_id = noop
+            # _reset_mfg_id is left alone: joins of devices with a manufacturer-specific address prefix start a
+            # background task on the running application, and later joins must still be reported
             app._ezsp.add_callback(app.ezsp_callback_handler)
             return app, rec
         self.apps[v] = self.loop.run_until_complete(mk())
@@ -104,7 +114,10 @@ class Check(PropertyCheck):
             for status in (0, 1, 2, 3, 4, 5, 6, 7, 0xFF):
                 for decision in (0, 1, 2, 3, 0x7F):
                     ieee = [rng.randrange(256) for _ in range(8)]
-                    ieee[7] = 0x00          # avoid the two manufacturer prefixes that start a timer task
+                    if rng.random() < 0.35:
+                        # Xiaomi / Lumi address prefixes (04:CF:8C, 54:EF:44): the application overrides its
+                        # manufacturer id for a while; several such joins hit one running application
+                        ieee[5:8] = rng.choice([[0x8C, 0xCF, 0x04], [0x44, 0xEF, 0x54]])
                     j = {"nwk": rng.randrange(65536), "ieee": ieee, "status": status, "decision": decision,
                          "parent": rng.randrange(65536), "hseq": rng.randrange(256)}
                     cases.append({"v": v, "kind": "join", "m": j})
@@ -117,6 +130,10 @@ class Check(PropertyCheck):
         app, rec = self._app(case["v"])
         del rec[:]
         asyncio.set_event_loop(self.loop)
+        # firmware convention: a callback frame never carries the sequence number of a pending command
+        # (the manufacturer-id task may have one outstanding on this application)
+        while case["m"]["hseq"] in app._ezsp._protocol._awaiting:
+            case["m"]["hseq"] = (case["m"]["hseq"] + 1) % 256
         data = self.frame(case)
         out = []
 
